@@ -433,18 +433,33 @@ class ExecMixin:
     def havoc_state(self, st, names, fields):
         for n in names:
             if n in st.locals:
-                old = st.locals[n]
                 t = smt.fresh(f"hv.{n}")
-                sv = SV(t, old.ty if (old.ty in ("int", "bool", "str", "list", "dict", "set") or (old.ty or "").startswith("obj:")) and n in self.stable_types else None, old.meta if n in self.stable_types else None)
-                st.locals[n] = sv
+                if n.startswith("_k") and n[2:].isdigit():
+                    st.assume(smt.is_int(t))
+                    st.locals[n] = SV(t, "int")
+                else:
+                    st.locals[n] = SV(t)
         if "*" in fields:
-            fields = set(st.heap) | set(fields) - {"*"}
             self.havoc_all(st)
             return
         for f in fields:
-            st.setH(f, fresh_array(f))
-            self.written.add(f)
+            self.havoc_field_framed(st, f)
         st.havocked = True
+
+    def havoc_field_framed(self, st, f):
+        """Loop havoc of a heap array: locations the enclosing function may not write keep their value
+        (every write inside the body is checked against the function frame by check_write)."""
+        cur = st.H(f)
+        new = fresh_array(f)
+        al = self.allowed_refs(f)
+        if al is None or self.con.modifies is None:
+            st.setH(f, new)
+        else:
+            r = z3.Int(f"r!lf{self._qid()}")
+            excl = [r != a for a in al]
+            st.assume(z3.ForAll([r], z3.Implies(z3.And(r < self.entry.alloc, *excl), z3.Select(new, r) == z3.Select(cur, r)), patterns=[z3.Select(new, r)]))
+            st.setH(f, new)
+        self.written.add(f)
 
     def havoc_all(self, st):
         for f in list(st.heap):
